@@ -99,3 +99,15 @@ Theorem C01_windcount_decoding :
     (left_of w dx = w /\ right_of w dx = (w - Z.sgn w)%Z) \/ (right_of w dx = w /\ left_of w dx = (w - Z.sgn w)%Z).
 Proof. exact decode_far. Qed.
 Print Assumptions C01_windcount_crossing_same_set.
+
+(* the decision at the end of intersectEdges (do two crossing, non-hot edges of the same path set start a new
+   output polygon?), as TRANSLATED FROM /repo's CURRENT SOURCE on every run (Gen/NewPoly_gen.v), is: both
+   edges are contributing (C01_contribution_rule) with their updated wind counts *)
+From Clip Require Import Gen.NewPoly_gen Model.NewPolyProofs.
+Theorem C01_new_polygon_at_crossing :
+  forall fr ct w1 w2 c is_subj,
+    ct <> NoClip -> counts_ok fr w1 c -> counts_ok fr w2 c ->
+    gen_newpoly fr ct c c is_subj (norm fr w1) (norm fr w2) true =
+    gen_isContributingClosed fr ct w1 c is_subj && gen_isContributingClosed fr ct w2 c is_subj.
+Proof. exact newpoly_same_set_is_both_contributing. Qed.
+Print Assumptions C01_new_polygon_at_crossing.
